@@ -578,6 +578,208 @@ class Model:
                     frontier.append((tgt, d + 1))
         return out
 
+    def _private_target(self, call, f, mi, ci):
+        """FunctionDef of the private helper a call resolves to, or None"""
+        n = call
+        if isinstance(n.func, ast.Name) and n.func.id.startswith("_"):
+            tgt = mi.functions.get(n.func.id)
+            if tgt is None:
+                for x in ast.walk(f):
+                    if isinstance(x, ast.FunctionDef) and x.name == n.func.id:
+                        return x
+            return tgt
+        if isinstance(n.func, ast.Attribute) and n.func.attr.startswith("_") \
+                and not n.func.attr.startswith("__") \
+                and isinstance(n.func.value, ast.Name) \
+                and n.func.value.id in ("self", "cls") and ci is not None:
+            r = self.resolve_method(ci.qn, n.func.attr)
+            if r is not None:
+                return r[1]
+        return None
+
+    def inlined(self, fd, depth=2):
+        """A copy of ``fd`` in which calls to private helpers (as in
+        :meth:`private_callees`) are replaced by the helper's body: statement-position
+        calls (``x = _h(a)``, ``_h(a)``, ``return _h(a)``) by the body in tail form
+        with ``return e`` turned into ``x = e``; calls to one-expression helpers
+        anywhere.  Parameters are substituted by the argument expressions.  A helper
+        with a return inside a loop/try/with, with */** parameters, or called with
+        */** arguments stays a call.  Rules that compare the text or the shape of a
+        block work on this copy, so that extracting the block into a helper does not
+        change what they see."""
+        key = (id(fd), depth)
+        cache = self.__dict__.setdefault("_inl_cache", {})
+        if key in cache:
+            return cache[key]
+        mi = self.module_of(fd)
+        cls = self.enclosing_class(fd)
+        ci = None
+        if cls is not None:
+            ci = next((c for c in self.classes.values() if c.node is cls), None)
+        new = _cp(fd)
+        stack = {id(fd)}
+        new.body = self._inline_body(new.body, fd, mi, ci, depth, stack,
+                                     {n.id for n in ast.walk(fd) if isinstance(n, ast.Name)})
+        new = _ExprInliner(self, fd, mi, ci).visit(new)
+        ast.fix_missing_locations(new)
+        for p_ in ast.walk(new):
+            for ch in ast.iter_child_nodes(p_):
+                ch._parent = p_
+        new._parent = getattr(fd, "_parent", None)
+        cache[key] = new
+        return new
+
+    def _inline_body(self, stmts, f, mi, ci, depth, stack, taken):
+        out = []
+        for s in stmts:
+            for fld in ("body", "orelse", "finalbody"):
+                if isinstance(getattr(s, fld, None), list) and not isinstance(
+                        s, (ast.FunctionDef, ast.AsyncFunctionDef, ast.ClassDef)):
+                    setattr(s, fld, self._inline_body(getattr(s, fld), f, mi, ci, depth,
+                                                      stack, taken))
+            for h in getattr(s, "handlers", []):
+                h.body = self._inline_body(h.body, f, mi, ci, depth, stack, taken)
+            call, fin = None, None
+            if isinstance(s, ast.Assign) and len(s.targets) == 1 \
+                    and isinstance(s.value, ast.Call):
+                call = s.value
+                fin = lambda e, s=s: ast.Assign(targets=[s.targets[0]], value=e,   # noqa
+                                                lineno=s.lineno)
+            elif isinstance(s, ast.AnnAssign) and isinstance(s.value, ast.Call):
+                call = s.value
+                fin = lambda e, s=s: ast.Assign(targets=[s.target], value=e,   # noqa
+                                                lineno=s.lineno)
+            elif isinstance(s, ast.Expr) and isinstance(s.value, ast.Call):
+                call = s.value
+                fin = lambda e, s=s: ast.Expr(value=e)   # noqa
+            elif isinstance(s, ast.Return) and isinstance(s.value, ast.Call):
+                call = s.value
+                fin = lambda e, s=s: ast.Return(value=e)   # noqa
+            rep = None
+            if call is not None and depth > 0:
+                tgt = self._private_target(call, f, mi, ci)
+                if tgt is not None and id(tgt) not in stack:
+                    rep = self._inline_call(call, tgt, fin, mi, ci, depth, stack, taken)
+            if rep is None:
+                out.append(s)
+            else:
+                for r in rep:
+                    for x in ast.walk(r):
+                        if hasattr(x, "lineno") or isinstance(x, (ast.stmt, ast.expr)):
+                            x.lineno = s.lineno
+                            x.end_lineno = getattr(s, "end_lineno", s.lineno)
+                            x.col_offset = getattr(s, "col_offset", 0)
+                            x.end_col_offset = getattr(s, "end_col_offset", 0)
+                out.extend(rep)
+        return out
+
+    def _bind_args(self, call, tgt):
+        """parameter name -> argument expression, or None when not expressible"""
+        a = tgt.args
+        if a.vararg or a.kwarg or a.posonlyargs and False:
+            return None
+        if any(isinstance(x, ast.Starred) for x in call.args) \
+                or any(k.arg is None for k in call.keywords):
+            return None
+        params = [x.arg for x in a.posonlyargs + a.args]
+        is_method = isinstance(call.func, ast.Attribute)
+        decs = {ast.unparse(d) for d in tgt.decorator_list}
+        if decs - {"staticmethod", "classmethod"}:
+            return None
+        if is_method and "staticmethod" not in decs:
+            recv, params = params[0], params[1:]
+        else:
+            recv = None
+        if len(call.args) > len(params):
+            return None
+        bind = dict(zip(params, call.args))
+        kwonly = [x.arg for x in a.kwonlyargs]
+        for k in call.keywords:
+            if k.arg in bind or k.arg not in params + kwonly:
+                return None
+            bind[k.arg] = k.value
+        defaults = dict(zip(params[len(params) - len(a.defaults):], a.defaults)) \
+            if a.defaults else {}
+        for n_, d in zip(kwonly, a.kw_defaults):
+            if d is not None:
+                defaults[n_] = d
+        for p_ in params + kwonly:
+            if p_ not in bind:
+                if p_ not in defaults:
+                    return None
+                bind[p_] = defaults[p_]
+        if recv is not None:
+            bind[recv] = call.func.value
+        return bind
+
+    def _inline_call(self, call, tgt, fin, mi, ci, depth, stack, taken):
+        bind = self._bind_args(call, tgt)
+        if bind is None:
+            return None
+        body = [_cp(s) for s in tgt.body]
+        if body and isinstance(body[0], ast.Expr) and isinstance(body[0].value, ast.Constant) \
+                and isinstance(body[0].value.value, str):
+            body = body[1:]
+        if any(isinstance(x, (ast.Yield, ast.YieldFrom, ast.Await, ast.Global, ast.Nonlocal))
+               for s in body for x in ast.walk(s)):
+            return None
+        body = _tail_form(body)
+        if body is None:
+            return None
+        # names: parameters assigned in the helper and its locals are renamed when
+        # they collide with the caller's names; unassigned parameters are substituted
+        assigned = {n.id for s in body for n in ast.walk(s)
+                    if isinstance(n, ast.Name) and isinstance(n.ctx, (ast.Store, ast.Del))}
+        for s in body:
+            for n in ast.walk(s):
+                if isinstance(n, (ast.FunctionDef, ast.Lambda)):
+                    aa = n.args
+                    assigned -= set()   # nested scopes keep their own parameters
+                    for x in aa.args + aa.kwonlyargs + aa.posonlyargs:
+                        if x.arg in bind:
+                            return None
+        pre, subst, ren = [], {}, {}
+        for p_, e in bind.items():
+            simple = isinstance(e, (ast.Name, ast.Constant)) or (
+                isinstance(e, ast.Attribute) and isinstance(e.value, ast.Name))
+            nuse = sum(1 for s in body for n in ast.walk(s)
+                       if isinstance(n, ast.Name) and n.id == p_)
+            if p_ not in assigned and (simple or nuse <= 1):
+                subst[p_] = e
+            else:
+                nm = p_ if (p_ not in taken or (isinstance(e, ast.Name) and e.id == p_)) \
+                    else p_ + "__inl"
+                ren[p_] = nm
+                if not (isinstance(e, ast.Name) and e.id == nm):
+                    pre.append(ast.Assign(targets=[ast.Name(id=nm, ctx=ast.Store())],
+                                          value=_cp(e), lineno=call.lineno))
+        for v in assigned - set(bind):
+            ren[v] = v if v not in taken else v + "__inl"
+        taken |= set(ren.values())
+
+        class Sub(ast.NodeTransformer):
+            def visit_Name(self, n):
+                if n.id in subst and isinstance(n.ctx, ast.Load):
+                    return _cp(subst[n.id])
+                if n.id in ren:
+                    return ast.Name(id=ren[n.id], ctx=n.ctx)
+                return n
+        body = [Sub().visit(s) for s in body]
+
+        class Ret(ast.NodeTransformer):
+            def visit_FunctionDef(self, n):
+                return n
+
+            def visit_Lambda(self, n):
+                return n
+
+            def visit_Return(self, n):
+                return fin(n.value if n.value is not None else ast.Constant(value=None))
+        body = [Ret().visit(s) for s in body]
+        body = self._inline_body(body, tgt, self.module_of(tgt), ci, depth - 1,
+                                 stack | {id(tgt)}, taken)
+        return pre + body
+
     def scope(self, fd, depth=2):
         """``fd`` and its private callees"""
         return [fd] + self.private_callees(fd, depth)
@@ -594,6 +796,110 @@ class Model:
             for n in ast.walk(mi.tree):
                 if isinstance(n, (ast.FunctionDef, ast.AsyncFunctionDef)):
                     yield mi, n
+
+
+def _tail_form(stmts):
+    """the statement list with every ``return`` in tail position (statements after an
+    ``if`` that returns on some path are moved into its falling-through arms), or
+    None when a return sits inside a loop, try or with"""
+    out = []
+    for i, s in enumerate(stmts):
+        rest = stmts[i + 1:]
+        if isinstance(s, ast.Return):
+            out.append(s)
+            return out
+        has_ret = any(isinstance(x, ast.Return) for x in _walk_same_scope(s))
+        if not has_ret:
+            out.append(s)
+            continue
+        if not isinstance(s, ast.If):
+            return None
+
+        def ends(b):
+            return bool(b) and isinstance(b[-1], (ast.Return, ast.Raise))
+        b = s.body if ends(s.body) else s.body + [_cp(x) for x in rest]
+        o = s.orelse if ends(s.orelse) else s.orelse + [_cp(x) for x in rest]
+        tb, to = _tail_form(b), _tail_form(o)
+        if tb is None or to is None:
+            return None
+        out.append(ast.If(test=s.test, body=tb or [ast.Pass()], orelse=to,
+                          lineno=getattr(s, "lineno", 0)))
+        return out
+    return out
+
+
+def _walk_same_scope(node):
+    todo = [node]
+    while todo:
+        n = todo.pop()
+        yield n
+        for ch in ast.iter_child_nodes(n):
+            if not isinstance(ch, (ast.FunctionDef, ast.AsyncFunctionDef, ast.Lambda,
+                                   ast.ClassDef)):
+                todo.append(ch)
+
+
+class _ExprInliner(ast.NodeTransformer):
+    """calls to private helpers whose body is one ``return <expr>``, anywhere"""
+
+    def __init__(self, model, f, mi, ci):
+        self.m, self.f, self.mi, self.ci = model, f, mi, ci
+        self.active = set()
+
+    def visit_Call(self, n):
+        self.generic_visit(n)
+        tgt = self.m._private_target(n, self.f, self.mi, self.ci)
+        if tgt is None or id(tgt) in self.active or tgt is self.f:
+            return n
+        body = list(tgt.body)
+        if body and isinstance(body[0], ast.Expr) and isinstance(body[0].value, ast.Constant) \
+                and isinstance(body[0].value.value, str):
+            body = body[1:]
+        if len(body) != 1 or not isinstance(body[0], ast.Return) or body[0].value is None:
+            return n
+        bind = self.m._bind_args(n, tgt)
+        if bind is None:
+            return n
+        e = _cp(body[0].value)
+        if any(isinstance(x, (ast.Lambda, ast.ListComp, ast.SetComp, ast.DictComp,
+                              ast.GeneratorExp, ast.NamedExpr, ast.Yield, ast.Await))
+               for x in ast.walk(e)):
+            # comprehension variables could capture argument names
+            bound = {x.id for x in ast.walk(e) if isinstance(x, ast.Name)
+                     and isinstance(x.ctx, ast.Store)}
+            free = {x.id for a in bind.values() for x in ast.walk(a)
+                    if isinstance(x, ast.Name)}
+            if bound & (free | set(bind)) or any(isinstance(x, (ast.Lambda, ast.NamedExpr,
+                                                               ast.Yield, ast.Await))
+                                                  for x in ast.walk(e)):
+                return n
+
+        class Sub(ast.NodeTransformer):
+            def visit_Name(self, x):
+                if x.id in bind and isinstance(x.ctx, ast.Load):
+                    return _cp(bind[x.id])
+                return x
+        e = Sub().visit(e)
+        self.active.add(id(tgt))
+        e = self.visit(e)
+        self.active.discard(id(tgt))
+        return ast.copy_location(e, n)
+
+
+def _cp(node):
+    """deep copy of a syntax tree that does not follow the parent links"""
+    if isinstance(node, list):
+        return [_cp(x) for x in node]
+    if not isinstance(node, ast.AST):
+        return node
+    new = type(node)()
+    for f in node._fields:
+        if hasattr(node, f):
+            setattr(new, f, _cp(getattr(node, f)))
+    for a in node._attributes:
+        if hasattr(node, a):
+            setattr(new, a, getattr(node, a))
+    return new
 
 
 def literal_dict_keys(node: ast.expr) -> list[ast.expr]:
